@@ -1,5 +1,5 @@
 \* C11: EVERY program "two leaves, then one Boolean or one transform" over the small leaf family
-\* (9 varied contours x both fill rules), all operations, all 14 generators, observed at once or late
+\* (11 varied contours x both fill rules), all operations, all 18 generators and derivations, observed at once or late
 CONSTANTS K = 4
   Grid = 3
   LeafFam = "small"
